@@ -42,7 +42,8 @@ DRIVER = "PorepyVerif/C01/Driver.lean"
 N = {"quick": 300, "thorough": 12000}
 RULE = ("random AD program trees of depth 1-5 over 1-4 variables from initAdArrays (sizes 1-6): every overload "
         "(+ - * / ** and the reflected forms) with python scalars (int and float), numpy arrays (int and float dtype), other "
-        "AdArrays (including the same object on both sides), sparse matrices on the left (csr/csc, empty rows), row slicing "
+        "AdArrays (including the same object on both sides), straight-line programs with 0-3 shared intermediate results so that "
+        "variables and results are used by several later operations as the SAME python object (expression DAGs), sparse matrices on the left (csr/csc, empty rows), row slicing "
         "(int, negative int, slices with steps, index arrays with repeats), every library function with its parameters, l2_norm "
         "(dim 1-3), maximum (AdArray/array/scalar on either side); operands are drawn so that every intermediate value lies inside "
         "the smooth domain of the next operation with a margin and stays below 1e4; plus ~5% trees that sit exactly ON a kink "
@@ -56,6 +57,7 @@ TRUSTED = [
     "a ** b is read as Real.rpow: agrees with C pow for positive bases and for integer exponents (Real.rpow_intCast); arccosh/arctanh/arcsinh are Mathlib's arcosh/artanh/arsinh",
     "modelled, not verified: scipy sparse products and formats, numpy broadcasting of python scalars, pp.matrix_operations.merge_matrices / slice_sparse_matrix inside maximum (C35), binary64 rounding",
     "hand-modelled (not translated): l2_norm, maximum, __getitem__, initAdArrays (their source text is pinned by the translator; Expr.l2norm / Expr.maximum / Expr.slice / Expr.var in the theorems, Tree.* in the driver); RegularizedHeaviside is not covered",
+    "aliasing / in-place modification of operands is a run-time notion the immutable Lean model cannot exhibit (a shared sub-expression is simply expanded in the model): that no operation alters an AdArray it is given is checked by the oracle only (operands and all inputs / shared results are compared bit for bit with copies taken before), and shows up in the correspondence as a wrong Jacobian of a later use",
     "the tree theorems index rows by natural numbers; array lengths and the size errors of the code are part of the Float model only",
 ]
 EXPLANATION = ("FULL on the smooth domain. Per generated rule: value expression = the real operation, Jacobian factor(s) = its derivative "
@@ -63,7 +65,8 @@ EXPLANATION = ("FULL on the smooth domain. Per generated rule: value expression 
                "left matrix products, slicing, l2_norm (rows above its tolerance) and maximum (rows not tied), at every point, "
                "forward-mode values equal the plain evaluation and every Jacobian row is the Frechet derivative of that output "
                "component (induction over the tree). safe_power: the theorem is about the repaired rule; the rule at the pinned "
-               "commit is proved NOT to be a derivative (safe_power_as_found_unsound) and is a listed finding.")
+               "commit is proved NOT to be a derivative (safe_power_as_found_unsound; repaired in /repo since). "
+               "Operand immutability (needed for expression DAGs that reuse one AdArray object) is tested by the oracle only.")
 ASSUMPTIONS = ["inputs inside the smooth domain of every operation of the tree (margins enforced by the generator); numpy arrays are 1-d and of the AdArray's size"]
 
 GEN_LEAN = os.path.join(common.LEAN, "PorepyVerif", "C01", "Generated.lean")
@@ -161,15 +164,16 @@ def _operand(node, n):
     return np.full(n, F(node["s"]))
 
 
-def np_eval(t, X):
-    """Plain numpy evaluation of the tree at the list of variable arrays X (real or complex)."""
+def _np_eval(t, X, Lv):
     k = t["k"]
+    if k == "ref":
+        return Lv[t["i"]]
     if k == "var":
         return X[t["i"]]
     if k == "fn":
-        return _np_fn(t["f"], np_eval(t["a"], X), [F(x) for x in t["p"]])
+        return _np_fn(t["f"], _np_eval(t["a"], X, Lv), [F(x) for x in t["p"]])
     if k == "op":
-        a = np_eval(t["a"], X)
+        a = _np_eval(t["a"], X, Lv)
         kind = t["kind"]
         if kind == "S":
             c = F(t["c"])
@@ -178,7 +182,7 @@ def np_eval(t, X):
             if c.size != a.size:
                 raise ValueError("size")
         elif kind == "Ad":
-            c = a if t["b"] == "same" else np_eval(t["b"], X)
+            c = a if t["b"] == "same" else _np_eval(t["b"], X, Lv)
             if c.size != a.size:
                 raise ValueError("size")
             if t["op"] == "rmul":
@@ -194,12 +198,12 @@ def np_eval(t, X):
             raise ValueError("matmul")
         return _np_op(t["op"], a, c)
     if k == "slice":
-        a = np_eval(t["a"], X)
+        a = _np_eval(t["a"], X, Lv)
         key = _key_of(t["key"])
         r = a[key]
         return np.array([r]) if np.ndim(r) == 0 else r
     if k == "l2":
-        a = np_eval(t["a"], X)
+        a = _np_eval(t["a"], X, Lv)
         if a.size % t["dim"] != 0:
             raise AssertionError("l2 size")
         r = np.reshape(a, (t["dim"], -1), order="F")
@@ -207,9 +211,9 @@ def np_eval(t, X):
             return np.sqrt(np.sum(r * r, axis=0))
         return np.linalg.norm(r, axis=0)
     if k in ("max", "maxR", "maxL"):
-        a = np_eval(t["a"], X)
+        a = _np_eval(t["a"], X, Lv)
         if k == "max":
-            b = np_eval(t["b"], X)
+            b = _np_eval(t["b"], X, Lv)
             if a.size != b.size:
                 raise ValueError("size")
             return np.where(np.real(b) > np.real(a), b, a)
@@ -222,23 +226,40 @@ def np_eval(t, X):
     raise KeyError(k)
 
 
-def size_of(t, sizes):
+def np_eval(t, X, L=()):
+    """Plain numpy evaluation of the program `L[0]; L[1]; ...; t` (every `{"k": "ref", "i": j}` stands for the value of L[j])
+    at the list of variable arrays X (real or complex)."""
+    Lv = []
+    for d in L:
+        Lv.append(_np_eval(d, X, Lv))
+    return _np_eval(t, X, Lv)
+
+
+def size_of(t, sizes, L=()):
     """output length of a tree (None if it raises)"""
     try:
         with np.errstate(all="ignore"):
-            return int(np_eval(t, [np.zeros(s) + 1.5 for s in sizes]).size)
+            return int(np_eval(t, [np.zeros(s) + 1.5 for s in sizes], L).size)
     except Exception:
         return None
 
 
 # ----------------------------------------------------------------------------- the real code
-def _impl_eval(t, ads):
+def _snap(ad):
+    J = ad.jac.toarray() if sps.issparse(ad.jac) else np.array(ad.jac, dtype=float)
+    return (np.array(ad.val, dtype=float, copy=True), np.array(J, dtype=float, copy=True))
+
+
+def _unchanged(ad, snap):
+    J = ad.jac.toarray() if sps.issparse(ad.jac) else np.asarray(ad.jac, dtype=float)
+    return np.array_equal(ad.val, snap[0], equal_nan=True) and J.shape == snap[1].shape and np.array_equal(J, snap[1], equal_nan=True)
+
+
+def _apply(t, a, b, c):
+    """one operation of the real code; a = evaluated first operand, b = evaluated second AdArray operand (or None), c = constant"""
     from porepy.numerics.ad import functions as af
     k = t["k"]
-    if k == "var":
-        return ads[t["i"]]
     if k == "fn":
-        a = _impl_eval(t["a"], ads)
         if t["f"] == "neg":
             return -a
         p = [F(x) for x in t["p"]]
@@ -246,46 +267,85 @@ def _impl_eval(t, ads):
         it = iter(p)
         return getattr(af, t["f"])(*[a if s == "var" else next(it) for s in sig])
     if k == "op":
-        a = _impl_eval(t["a"], ads)
         kind, op = t["kind"], t["op"]
         if kind == "S":
-            c = F(t["c"])
-            if t.get("int"):
-                c = int(c)
             if t.get("syntax"):  # python operator syntax instead of the dunder call
                 return {"add": lambda: a + c, "radd": lambda: c + a, "sub": lambda: a - c, "rsub": lambda: c - a, "mul": lambda: a * c,
                         "rmul": lambda: c * a, "pow": lambda: a ** c, "rpow": lambda: c ** a, "truediv": lambda: a / c,
                         "rtruediv": lambda: c / a, "matmul": lambda: a @ c, "rmatmul": lambda: c @ a}[op]()
-        elif kind == "A":
-            c = Fs(t["c"])
-            if t.get("int"):
-                c = c.astype(int)
         elif kind == "Ad":
-            c = a if t["b"] == "same" else _impl_eval(t["b"], ads)
+            c = b
             if t.get("syntax") and not op.startswith("r"):
                 return {"add": lambda: a + c, "sub": lambda: a - c, "mul": lambda: a * c, "pow": lambda: a ** c, "truediv": lambda: a / c,
                         "matmul": lambda: a @ c}[op]()
-        else:
-            M = np.array([[F(x) for x in row] for row in t["m"]]).reshape(len(t["m"]), t["cols"])
-            c = sps.csc_matrix(M) if t.get("fmt") == "csc" else sps.csr_matrix(M)
+        elif kind == "Sp":
             if op == "rmatmul" and t.get("syntax"):
                 return c @ a
         return getattr(a, f"__{op}__")(c)
     if k == "slice":
-        return _impl_eval(t["a"], ads)[_key_of(t["key"])]
+        return a[_key_of(t["key"])]
     if k == "l2":
-        return af.l2_norm(t["dim"], _impl_eval(t["a"], ads))
-    a = _impl_eval(t["a"], ads)
+        return af.l2_norm(t["dim"], a)
     if k == "max":
-        return af.maximum(a, _impl_eval(t["b"], ads))
-    c = F(t["s"]) if "s" in t else Fs(t["c"])
+        return af.maximum(a, b)
     return af.maximum(a, c) if k == "maxR" else af.maximum(c, a)
 
 
-def _run_real(case):
+def _const_operand(t):
+    k = t["k"]
+    if k == "op":
+        if t["kind"] == "S":
+            c = F(t["c"])
+            return int(c) if t.get("int") else c
+        if t["kind"] == "A":
+            c = Fs(t["c"])
+            return c.astype(int) if t.get("int") else c
+        if t["kind"] == "Sp":
+            M = np.array([[F(x) for x in row] for row in t["m"]]).reshape(len(t["m"]), t["cols"])
+            return sps.csc_matrix(M) if t.get("fmt") == "csc" else sps.csr_matrix(M)
+        return None
+    if k in ("maxR", "maxL"):
+        return F(t["s"]) if "s" in t else Fs(t["c"])
+    return None
+
+
+def _impl_eval(t, ads, lets, watch=None):
+    """Evaluate with the real code.  Variables and shared results (`ref`) are the SAME python objects wherever they occur.
+    watch (a list) collects the operations that altered one of their AdArray operands."""
+    k = t["k"]
+    if k == "var":
+        return ads[t["i"]]
+    if k == "ref":
+        return lets[t["i"]]
+    a = _impl_eval(t["a"], ads, lets, watch)
+    b = None
+    if (k == "op" and t["kind"] == "Ad") or k == "max":
+        b = a if t["b"] == "same" else _impl_eval(t["b"], ads, lets, watch)
+    c = _const_operand(t)
+    if watch is None:
+        return _apply(t, a, b, c)
+    sa, sb = _snap(a), (_snap(b) if b is not None else None)
+    try:
+        return _apply(t, a, b, c)
+    finally:
+        if not _unchanged(a, sa) or (b is not None and not _unchanged(b, sb)):
+            watch.append(_node_name(t))
+
+
+def _run_real(case, watch=None, keep=None):
+    """the program `lets; tree` on fresh initAdArrays.  keep (a list) receives (label, object, snapshot at creation) of every
+    input AdArray and every shared result."""
     from porepy.numerics.ad.forward_mode import initAdArrays
     ads = initAdArrays([Fs(v) for v in case["vars"]])
-    return _impl_eval(case["tree"], ads)
+    if keep is not None:
+        keep += [(f"variable {i}", a, _snap(a)) for i, a in enumerate(ads)]
+    lets = []
+    for j, d in enumerate(case.get("lets", [])):
+        r = _impl_eval(d, ads, lets, watch)
+        lets.append(r)
+        if keep is not None:
+            keep.append((f"shared result {j}", r, _snap(r)))
+    return _impl_eval(case["tree"], ads, lets, watch)
 
 
 def _err(e):
@@ -303,40 +363,45 @@ def impl_run(case):
 
 
 # ----------------------------------------------------------------------------- the model
-def _model_tree(t, sizes):
+def _model_tree(t, sizes, L=(), Lm=()):
     k = t["k"]
     if k == "var":
         return {"k": "var", "i": t["i"]}
+    if k == "ref":
+        return Lm[t["i"]]
     if k == "fn":
-        return {"k": "fn", "f": t["f"], "p": t["p"], "a": _model_tree(t["a"], sizes)}
+        return {"k": "fn", "f": t["f"], "p": t["p"], "a": _model_tree(t["a"], sizes, L, Lm)}
     if k == "op":
-        out = {"k": "op", "op": t["op"], "kind": t["kind"], "a": _model_tree(t["a"], sizes)}
+        out = {"k": "op", "op": t["op"], "kind": t["kind"], "a": _model_tree(t["a"], sizes, L, Lm)}
         if t["kind"] in ("S", "A"):
             out["c"] = t["c"]
         elif t["kind"] == "Ad":
-            out["b"] = _model_tree(t["a"] if t["b"] == "same" else t["b"], sizes)
+            out["b"] = _model_tree(t["a"] if t["b"] == "same" else t["b"], sizes, L, Lm)
         else:
             out["m"], out["cols"] = t["m"], t["cols"]
         return out
     if k == "slice":
-        n = size_of(t["a"], sizes)
+        n = size_of(t["a"], sizes, L)
         try:
             idx = [int(i) for i in np.atleast_1d(np.arange(n if n is not None else 0)[_key_of(t["key"])])]
         except IndexError:
             idx = [10 ** 6]  # out of range: the model answers IndexError
-        return {"k": "slice", "idx": idx, "a": _model_tree(t["a"], sizes)}
+        return {"k": "slice", "idx": idx, "a": _model_tree(t["a"], sizes, L, Lm)}
     if k == "l2":
-        return {"k": "l2", "dim": t["dim"], "a": _model_tree(t["a"], sizes)}
+        return {"k": "l2", "dim": t["dim"], "a": _model_tree(t["a"], sizes, L, Lm)}
     if k == "max":
-        return {"k": "max", "a": _model_tree(t["a"], sizes), "b": _model_tree(t["b"], sizes)}
-    n = size_of(t["a"], sizes) or 0
+        return {"k": "max", "a": _model_tree(t["a"], sizes, L, Lm), "b": _model_tree(t["b"], sizes, L, Lm)}
+    n = size_of(t["a"], sizes, L) or 0
     c = t["c"] if "c" in t else [t["s"]] * n  # a python scalar is broadcast (np.ones_like * scalar)
-    return {"k": k, "a": _model_tree(t["a"], sizes), "c": c}
+    return {"k": k, "a": _model_tree(t["a"], sizes, L, Lm), "c": c}
 
 
 def model_ops(case):
     sizes = [len(v) for v in case["vars"]]
-    return [{"op": "eval", "vars": case["vars"], "tree": _model_tree(case["tree"], sizes)}]
+    L, Lm = case.get("lets", []), []
+    for j, d in enumerate(L):
+        Lm.append(_model_tree(d, sizes, L[:j], Lm))
+    return [{"op": "eval", "vars": case["vars"], "tree": _model_tree(case["tree"], sizes, L, Lm)}]
 
 
 def model_decode(outs, case):
@@ -378,20 +443,18 @@ def compare(impl, model, case):
 
 
 # ----------------------------------------------------------------------------- oracle
-def _complex_step(tree, X, h=1e-30):
+def _complex_step(tree, X, h=1e-30, L=()):
     n = sum(x.size for x in X)
     cols = []
-    off = 0
     for vi, x in enumerate(X):
         for j in range(x.size):
             Xc = [v.astype(complex) for v in X]
             Xc[vi][j] += 1j * h
-            cols.append(np.imag(np_eval(tree, Xc)) / h)
-        off += x.size
+            cols.append(np.imag(np_eval(tree, Xc, L)) / h)
     return np.array(cols).T if cols else np.zeros((0, n))
 
 
-def _central(tree, X, hh):
+def _central(tree, X, hh, L=()):
     cols = []
     for vi, x in enumerate(X):
         for j in range(x.size):
@@ -399,22 +462,12 @@ def _central(tree, X, hh):
             Xm = [v.copy() for v in X]
             Xp[vi][j] += hh
             Xm[vi][j] -= hh
-            cols.append((np_eval(tree, Xp) - np_eval(tree, Xm)) / (2 * hh))
+            cols.append((np_eval(tree, Xp, L) - np_eval(tree, Xm, L)) / (2 * hh))
     return np.array(cols).T
 
 
-def _richardson(tree, X, h=2e-4):
-    def cd(hh):
-        cols = []
-        for vi, x in enumerate(X):
-            for j in range(x.size):
-                Xp = [v.copy() for v in X]
-                Xm = [v.copy() for v in X]
-                Xp[vi][j] += hh
-                Xm[vi][j] -= hh
-                cols.append((np_eval(tree, Xp) - np_eval(tree, Xm)) / (2 * hh))
-        return np.array(cols).T
-    return (4 * cd(h / 2) - cd(h)) / 3
+def _richardson(tree, X, h=2e-4, L=()):
+    return (4 * _central(tree, X, h / 2, L) - _central(tree, X, h, L)) / 3
 
 
 def _expected_error(t):
@@ -441,20 +494,28 @@ def _node_name(t):
     return k
 
 
-def _check(tree, case, jac_check=True):
-    """None or (what, kind) for the AdArray the real code produces for `tree`"""
-    sub = {"vars": case["vars"], "tree": tree}
+def _check(tree, case, jac_check=True, L=None):
+    """None or (what, kind) for the AdArray the real code produces for the program `L; tree` (L defaults to the case's lets)"""
+    L = case.get("lets", []) if L is None else L
+    sub = {"vars": case["vars"], "lets": L, "tree": tree}
     X = [Fs(v) for v in case["vars"]]
     with np.errstate(all="ignore"):
         try:
-            want = np_eval(tree, X)
+            want = np_eval(tree, X, L)
         except Exception:
             return None  # not a legal expression: nothing to say here
+        watch, keep = [], []
         try:
-            r = _run_real(sub)
+            r = _run_real(sub, watch, keep)
         except Exception as e:
             slug = "-".join("".join(ch for ch in w if ch.isalnum() or ch == "_") for w in str(e).lower().split()[:4])
             return (f"{type(e).__name__} ({str(e)[:80]}) on a legal expression", f"raises-{type(e).__name__}-{slug}")
+        # operands are values: no operation may alter an AdArray it was given (the same object may be used again later)
+        if watch:
+            return (f"{watch[0]} altered the value or Jacobian of one of its AdArray operands", "mutates-operand")
+        for label, obj, snap in keep:
+            if not _unchanged(obj, snap):
+                return (f"{label} (val/jac) was altered while the expression was evaluated", "mutates-input")
         if not np.all(np.isfinite(want)):
             return None
         d = _close_arr(r.val, want, 1e-10)
@@ -464,7 +525,7 @@ def _check(tree, case, jac_check=True):
             return None
         J = r.jac.toarray() if sps.issparse(r.jac) else np.asarray(r.jac)
         J = np.atleast_2d(J)
-        Jc = _complex_step(tree, X)
+        Jc = _complex_step(tree, X, L=L)
         if J.shape != Jc.shape:
             return (f"Jacobian shape {J.shape}, expected {Jc.shape}", "jac-shape")
         if Jc.size == 0 or not np.all(np.isfinite(Jc)):
@@ -478,7 +539,7 @@ def _check(tree, case, jac_check=True):
         # itself is at a safe distance (large gradients), so a disagreement only counts if smaller steps confirm it.
         fmag = 1 + np.max(np.abs(want))
         worst = None
-        for fd, tol in ((lambda: _richardson(tree, X), 1e-4), (lambda: _central(tree, X, 1e-7), 1e-3), (lambda: _central(tree, X, 1e-9), 3e-2)):
+        for fd, tol in ((lambda: _richardson(tree, X, L=L), 1e-4), (lambda: _central(tree, X, 1e-7, L), 1e-3), (lambda: _central(tree, X, 1e-9, L), 3e-2)):
             Jr = fd()
             if not np.all(np.isfinite(Jr)):
                 return None
@@ -498,34 +559,43 @@ def _subtrees_postorder(t):
     yield t
 
 
+def _all_subprograms(case):
+    """(sub-expression, shared results defined before it) in evaluation order"""
+    L = case.get("lets", [])
+    for j, d in enumerate(L):
+        for sub in _subtrees_postorder(d):
+            yield sub, L[:j]
+    for sub in _subtrees_postorder(case["tree"]):
+        yield sub, L
+
+
+def _localise(case, jac_check):
+    for sub, L in _all_subprograms(case):
+        r = _check(sub, case, jac_check, L)
+        if r is not None:
+            return {"what": f"{_node_name(sub)}: {r[0]}", "key": f"{r[1]}:{_node_name(sub)}"}
+    return None
+
+
 def oracle(case):
     tree = case["tree"]
-    exp_err = _expected_error(tree)
+    exp_err = None
+    for d in list(case.get("lets", [])) + [tree]:
+        exp_err = exp_err or _expected_error(d)
     if exp_err:
         out = impl_run(case)
         if out.get("err") != exp_err:
-            for sub in _subtrees_postorder(tree):  # a legal sub-expression that already fails explains it
-                r = _check(sub, case, False)
-                if r is not None:
-                    return {"what": f"{_node_name(sub)}: {r[0]}", "key": f"{r[1]}:{_node_name(sub)}"}
-            return {"what": f"an illegal operand combination did not raise {exp_err}: got {out.get('err', 'a result')}", "key": "no-" + exp_err}
+            r = _localise(case, False)  # a legal sub-expression that already fails explains it
+            return r or {"what": f"an illegal operand combination did not raise {exp_err}: got {out.get('err', 'a result')}", "key": "no-" + exp_err}
         return None
     if case.get("kind") == "error":
-        for sub in _subtrees_postorder(tree):  # the legal sub-expressions must still be right
-            r = _check(sub, case, False)
-            if r is not None:
-                return {"what": f"{_node_name(sub)}: {r[0]}", "key": f"{r[1]}:{_node_name(sub)}"}
-        return None
+        return _localise(case, False)  # the legal sub-expressions must still be right
     jac_check = case.get("kind") != "kink"
     top = _check(tree, case, jac_check)
     if top is None:
         return None
-    # localise: the innermost sub-expression whose AdArray is already wrong names the call site
-    for sub in _subtrees_postorder(tree):
-        r = _check(sub, case, jac_check)
-        if r is not None:
-            return {"what": f"{_node_name(sub)}: {r[0]}", "key": f"{r[1]}:{_node_name(sub)}"}
-    return {"what": f"{_node_name(tree)}: {top[0]}", "key": f"{top[1]}:{_node_name(tree)}"}
+    # localise: the first sub-expression (in evaluation order) whose AdArray is already wrong names the call site
+    return _localise(case, jac_check) or {"what": f"{_node_name(tree)}: {top[0]}", "key": f"{top[1]}:{_node_name(tree)}"}
 
 
 # ----------------------------------------------------------------------------- generator
@@ -536,6 +606,8 @@ class _Gen:
     def __init__(self, rng, tier):
         self.rng = rng
         self.vars = []  # list of float arrays
+        self.lets = []  # shared sub-expressions (evaluated once, in order, before the main tree; referenced by {"k": "ref"})
+        self.let_sizes = []
         self.maxvars = rng.choice([1, 2, 3, 3, 4])
         self.tier = tier
 
@@ -556,10 +628,13 @@ class _Gen:
 
     def val(self, t):
         with np.errstate(all="ignore"):
-            return np_eval(t, self.vars)
+            return np_eval(t, self.vars, self.lets)
 
     def leaf(self, size):
         r = self.rng
+        shared = [j for j, n in enumerate(self.let_sizes) if n == size]
+        if shared and r.random() < 0.5:
+            return {"k": "ref", "i": r.choice(shared)}
         same = [i for i, v in enumerate(self.vars) if v.size == size]
         if same and (len(self.vars) >= self.maxvars or r.random() < 0.3):
             return {"k": "var", "i": r.choice(same)}
@@ -568,7 +643,7 @@ class _Gen:
         # no variable of that size and no room for another one: select / combine rows of an existing one
         i = r.randrange(len(self.vars))
         m = self.vars[i].size
-        if r.random() < 0.5 or (self.maxvars >= 2 and r.random() < 0.9):  # slicing a COO Jacobian is a listed finding: keep it rare
+        if r.random() < 0.5:
             return self.mk_matmul({"k": "var", "i": i}, size, m)
         return {"k": "slice", "key": {"t": "arr", "idx": [r.randrange(m) for _ in range(size)]}, "a": {"k": "var", "i": i}}
 
@@ -577,18 +652,6 @@ class _Gen:
         dens = r.choice([0.3, 0.6, 1.0])
         m = [[frac(self.fl(-2, 2)) if r.random() < dens else "0" for _ in range(cols)] for _ in range(rows)]
         return {"k": "op", "op": "rmatmul", "kind": "Sp", "m": m, "cols": cols, "fmt": r.choice(["csr", "csc"]), "syntax": r.random() < 0.5, "a": child}
-
-    def is_coo(self, t):
-        """Jacobian still in COO format (as returned by sps.bmat for >= 2 variables): finding C01 getitem-coo"""
-        if t["k"] == "var":
-            return self.maxvars >= 2
-        if t["k"] == "fn" and t["f"] == "neg":
-            return self.is_coo(t["a"])
-        if t["k"] == "op" and t["kind"] in ("S", "A") and t["op"] in ("add", "radd", "sub", "rsub"):
-            return self.is_coo(t["a"])
-        if t["k"] == "op" and t["kind"] == "S" and t["op"] in ("mul", "rmul", "truediv"):
-            return self.is_coo(t["a"])
-        return False
 
     def ok(self, t, lo=None):
         v = self.val(t)
@@ -636,8 +699,6 @@ class _Gen:
                 return {"k": "fn", "f": f, "p": [], "a": child}
         cv = self.val(child)
         f = r.choice(self.unary_candidates(cv))
-        if f == "safe_power" and r.random() < 0.75:
-            f = "sin"  # keep the known finding rare
         p = []
         if f == "heaviside":
             p = [frac(r.choice([0.0, 0.5, 1.0]))]
@@ -714,13 +775,8 @@ class _Gen:
     def mk_slice(self, size, depth):
         r = self.rng
         m = r.randint(size, max(size, min(8, size + 3)))
-        for _ in range(4):
-            child = self.tree(depth - 1, m)
-            if child is None:
-                return None
-            if not self.is_coo(child) or r.random() < 0.12:
-                break
-        else:
+        child = self.tree(depth - 1, m)
+        if child is None:
             return None
         kind = r.choice(["arr", "slice", "int"] if size == 1 else ["arr", "slice"])
         if kind == "int":
@@ -803,7 +859,7 @@ class _Gen:
 
 
 def _finish(g, tree, kind):
-    return {"kind": kind, "vars": [[frac(x) for x in v] for v in g.vars], "tree": tree}
+    return {"kind": kind, "vars": [[frac(x) for x in v] for v in g.vars], "lets": g.lets, "tree": tree}
 
 
 def _gen_smooth(rng, tier):
@@ -811,12 +867,19 @@ def _gen_smooth(rng, tier):
         g = _Gen(rng, tier)
         depth = rng.choice([1, 2, 3, 3, 4, 4, 5])
         size = rng.randint(1, 6)
+        # shared sub-expressions: results (and variables) that several later operations use as the same python object
+        for _ in range(rng.choice([0, 0, 1, 1, 2, 3])):
+            n = size if rng.random() < 0.75 else rng.randint(1, 6)
+            d = g.tree(rng.choice([1, 1, 2, 3]), n)
+            if d is not None and d["k"] not in ("var", "ref") and g.ok(d):
+                g.lets.append(d)
+                g.let_sizes.append(n)
         t = g.tree(depth, size)
-        if t is None or t["k"] == "var" and rng.random() < 0.9:
+        if t is None or t["k"] in ("var", "ref") and rng.random() < 0.9:
             continue
         with np.errstate(all="ignore"):
             X = [v.copy() for v in g.vars]
-            J = _complex_step(t, X)
+            J = _complex_step(t, X, L=g.lets)
         if not (np.all(np.isfinite(J)) and np.all(np.abs(J) < 1e7)):
             continue
         return _finish(g, t, "smooth")
@@ -913,20 +976,61 @@ def _nodes(t):
     return list(_subtrees_postorder(t))
 
 
+def _case_nodes(case):
+    out = []
+    for d in list(case.get("lets", [])) + [case["tree"]]:
+        out += _nodes(d)
+    return out
+
+
 def _depth(t):
     return 1 + max([_depth(t[k]) for k in ("a", "b") if isinstance(t.get(k), dict)] or [0])
 
 
+def _shared_uses(case):
+    """how often each python object that exists once (variable / shared result) is used as an operand"""
+    from collections import Counter
+    uses = Counter()
+    for n in _case_nodes(case):
+        if n["k"] == "var":
+            uses[("var", n["i"])] += 1
+        elif n["k"] == "ref":
+            uses[("ref", n["i"])] += 1
+        if n.get("b") == "same":
+            uses[("same", id(n))] += 2
+    return uses
+
+
 def nontrivial(case):
-    ns = _nodes(case["tree"])
-    ops = [n for n in ns if n["k"] != "var"]
+    ns = _case_nodes(case)
+    ops = [n for n in ns if n["k"] not in ("var", "ref")]
     chain = any(n["k"] in ("fn", "op") and n["a"]["k"] != "var" for n in ops)
     struct_ = any(n["k"] in ("slice", "l2", "max", "maxR", "maxL") or (n["k"] == "op" and n["kind"] in ("Ad", "Sp")) for n in ops)
     return case.get("kind") == "smooth" and len(ops) >= 3 and chain and struct_
 
 
+def _renumber(t, drop):
+    """tree with every ref > drop shifted down by one (ref == drop must not occur)"""
+    out = dict(t)
+    if t["k"] == "ref" and t["i"] > drop:
+        out["i"] = t["i"] - 1
+    for k in ("a", "b"):
+        if isinstance(t.get(k), dict):
+            out[k] = _renumber(t[k], drop)
+    return out
+
+
 def shrink_candidates(case):
     t = case["tree"]
+    L = case.get("lets", [])
+    # a shared result alone, with the shared results before it
+    for j in reversed(range(len(L))):
+        yield dict(case, lets=L[:j], tree=L[j])
+    # drop a shared result nobody refers to
+    for j in range(len(L)):
+        rest = L[:j] + L[j + 1:] + [t]
+        if not any(n["k"] == "ref" and n["i"] == j for d in rest for n in _nodes(d)):
+            yield dict(case, lets=[_renumber(d, j) for d in L[:j] + L[j + 1:]], tree=_renumber(t, j))
     # promote any proper subtree to the root
     for sub in _subtrees_postorder(t):
         if sub is not t:
@@ -944,6 +1048,10 @@ def shrink_candidates(case):
     for sub in _subtrees_postorder(t):
         if sub is not t and isinstance(sub.get("a"), dict):
             yield dict(case, tree=rebuild(t, sub))
+    for j, d in enumerate(L):
+        for sub in _subtrees_postorder(d):
+            if isinstance(sub.get("a"), dict):
+                yield dict(case, lets=L[:j] + [rebuild(d, sub)] + L[j + 1:])
     # simpler inputs
     simple = [[frac(round(F(x) * 4) / 4 or 0.5) for x in v] for v in case["vars"]]
     if simple != case["vars"]:
@@ -952,17 +1060,23 @@ def shrink_candidates(case):
 
 def stats(cases, impl_outs):
     from collections import Counter
-    kinds, nodes, depths, sizes, nv = Counter(), Counter(), Counter(), Counter(), Counter()
+    kinds, nodes, depths, sizes, nv, nlets = Counter(), Counter(), Counter(), Counter(), Counter(), Counter()
+    reused = 0
     for c in cases:
         kinds[c.get("kind", "?")] += 1
         depths[_depth(c["tree"])] += 1
         nv[len(c["vars"])] += 1
-        for n in _nodes(c["tree"]):
+        for n in _case_nodes(c):
             nodes[_node_name(n)] += 1
+        nlets[len(c.get("lets", []))] += 1
+        if any(v >= 2 for v in _shared_uses(c).values()):
+            reused += 1
     for o in impl_outs:
         sizes[len(o["val"]) if "val" in o else "err:" + o.get("err", "?")] += 1
     return {"case_kinds": dict(kinds), "tree_depth": {str(k): v for k, v in sorted(depths.items())}, "n_variables": {str(k): v for k, v in sorted(nv.items())},
             "output_size_or_error": {str(k): v for k, v in sorted(sizes.items(), key=lambda kv: str(kv[0]))},
+            "shared_results_per_case": {str(k): v for k, v in sorted(nlets.items())},
+            "cases_using_one_AdArray_object_at_least_twice": reused,
             "node_kinds": dict(sorted(nodes.items())), "rules_generated": _TR.get("rules"),
             "rules_never_exercised": sorted(set((_TR.get("arith") or []) + (_TR.get("lib") or [])) - {n.split(".", 1)[1] for n in nodes if "." in n})}
 
